@@ -253,6 +253,28 @@ func checkC01(e *Engine, r *Report) {
 		reportVenn("R11:frame@AccountAllocateCPU", "after accounting an allocation: isolated' = isolated ∖ E, sharable' = sharable ∖ E (so E ∩ (isolated' ∪ sharable') = ∅ and nothing else changes)", fn, ve, nil, goals, I != nil && Sh != nil)
 		r.Check("R11:frame@AccountAllocateCPU#reserved-untouched", "R11 frame lemmas", "accounting an allocation never writes the reserved set", e.Pos(fn.Pos()), fn, len(ve.storedValues(fRes)) == 0, "", false)
 	}
+	// the accounting applies to every pool other than the granting one: with IsSameNode false no return is reached
+	// without updating both the isolated and the sharable set (the tree walk relies on each visited pool doing its part)
+	for _, name := range []string{"supply.AccountAllocateCPU", "supply.AccountReleaseCPU"} {
+		fn := e.Fn(pkgTA, name)
+		if fn == nil {
+			continue
+		}
+		other := func(cond ssa.Value) (bool, bool) {
+			if call, ok := cond.(*ssa.Call); ok && callObj(call.Common()) != nil && callObj(call.Common()).Name() == "IsSameNode" {
+				return true, false
+			}
+			return false, false
+		}
+		for _, f := range []*types.Var{fIso, fSha} {
+			f := f
+			p := FindPath(PathQuery{Fn: fn, Assume: other, Target: isRet, Block: func(in ssa.Instruction) bool {
+				st, ok := in.(*ssa.Store)
+				return ok && fieldOfAddr(st.Addr) == f && paramIndex(st.Addr.(*ssa.FieldAddr).X) == 0
+			}})
+			r.Check("R1:account-applies-to-other-pools@"+fn.Name()+"#"+f.Name(), "R6+R1 propagation", fn.Name()+" updates the "+f.Name()+" set of every pool other than the granting one", e.Pos(fn.Pos()), fn, p == nil, e.pathString(p), true)
+		}
+	}
 	for _, name := range []string{"supply.ReleaseCPU", "supply.AccountReleaseCPU"} {
 		fn := r.Anchor(pkgTA, name)
 		if fn == nil {
